@@ -23,7 +23,9 @@ sec = ['<!-- SEEDS-BEGIN -->', '## 0b. Seeded changes (independent sub-agents) a
        'A fourth round (12 changes for C02, C05, C08, C10, C12, C14) was used for guidance only (its changes were tried against the checks in a scratch worktree but not confirmed with the',
        'full protocol, so they are not kept): 8 were caught as they came; 3 led to additions (VBK payload-index exactness in the real-tree harnesses, the VTB held by an unapplied fork block in',
        '`h_realsp_unequal`, `h_mempool_vtbfork`, the re-sent known header in `h_invrev`, the un-endorsed block in the difficulty window of `h_payout`, the removal-after-save continuation of',
-       '`h_reload`) and are caught now; 2 stay out of reach: a progpow header cache keyed without the nonce (needs the progpow computation) and a stored-index read limit that only bites above 1024 VTBs in one ALT block.', '',
+       '`h_reload`) and are caught now; 2 stay out of reach: a progpow header cache keyed without the nonce (needs the progpow computation) and a stored-index read limit that only bites above 1024 VTBs in one ALT block.',
+       'A fifth guidance round (12 changes for C06, C11, C15, C18, C19, C20): 7 caught as they came, 3 caught after additions (`h_divmul`, the exact future-limit boundary in `h_hdr`, the known block of proof without context in `h_realrefs`);',
+       '2 not caught (VBK retarget clamp sign, multisig address checksum length) and 1 in a test utility (MockMiner context builder) outside the properties. A reading note of one of these sub-agents pointed at three pre-existing defects, which the checks then decided and which are fixed (base59 table over-read, epoch 4096, malformed public key).', '',
        '| seed | needs, to manifest | outcome (quick tier) | registered checks that stay silent |', '|---|---|---|---|'] + rows + ['', '<!-- SEEDS-END -->']
 p = V + '/DESIGN.md'
 s = open(p).read()
